@@ -572,19 +572,40 @@ public:
         if (b != std::string::npos) s = s.substr(b);
         return s;
     }
+    std::string exprStr(const Expr* e)
+    {
+        if (!e) return "";
+        std::string s; llvm::raw_string_ostream os(s);
+        PrintingPolicy PP(Ctx.getLangOpts());
+        e->printPretty(os, nullptr, PP);
+        os.flush();
+        return s;
+    }
+    template <class It> std::string argList(It b, It e)
+    {
+        std::string out;
+        for (auto it = b; it != e; ++it) { if (!out.empty()) out += ", "; out += exprStr(*it); }
+        return out;
+    }
     json::Array tsaAttrs(const Decl* D)
     {
         json::Array a;
         for (auto* at : D->attrs()) {
-            switch (at->getKind()) {
-            case attr::GuardedBy: case attr::PtGuardedBy: case attr::RequiresCapability: case attr::LocksExcluded:
-            case attr::AcquireCapability: case attr::ReleaseCapability: case attr::TryAcquireCapability:
-            case attr::NoThreadSafetyAnalysis: case attr::AssertCapability: case attr::AcquiredAfter: case attr::AcquiredBefore:
-            case attr::LockReturned: case attr::ScopedLockable: case attr::Capability: case attr::WarnUnusedResult:
-                a.push_back(attrText(at));
-                break;
-            default: break;
-            }
+            if (auto* x = dyn_cast<GuardedByAttr>(at)) a.push_back("guarded_by(" + exprStr(x->getArg()) + ")");
+            else if (auto* x = dyn_cast<PtGuardedByAttr>(at)) a.push_back("pt_guarded_by(" + exprStr(x->getArg()) + ")");
+            else if (auto* x = dyn_cast<RequiresCapabilityAttr>(at)) a.push_back(std::string(x->isShared() ? "requires_shared_capability(" : "requires_capability(") + argList(x->args_begin(), x->args_end()) + ")");
+            else if (auto* x = dyn_cast<LocksExcludedAttr>(at)) a.push_back("locks_excluded(" + argList(x->args_begin(), x->args_end()) + ")");
+            else if (auto* x = dyn_cast<AcquireCapabilityAttr>(at)) a.push_back("acquire_capability(" + argList(x->args_begin(), x->args_end()) + ")");
+            else if (auto* x = dyn_cast<ReleaseCapabilityAttr>(at)) a.push_back("release_capability(" + argList(x->args_begin(), x->args_end()) + ")");
+            else if (auto* x = dyn_cast<TryAcquireCapabilityAttr>(at)) a.push_back("try_acquire_capability(" + argList(x->args_begin(), x->args_end()) + ")");
+            else if (auto* x = dyn_cast<AssertCapabilityAttr>(at)) a.push_back("assert_capability(" + argList(x->args_begin(), x->args_end()) + ")");
+            else if (auto* x = dyn_cast<AcquiredAfterAttr>(at)) a.push_back("acquired_after(" + argList(x->args_begin(), x->args_end()) + ")");
+            else if (auto* x = dyn_cast<AcquiredBeforeAttr>(at)) a.push_back("acquired_before(" + argList(x->args_begin(), x->args_end()) + ")");
+            else if (auto* x = dyn_cast<LockReturnedAttr>(at)) a.push_back("lock_returned(" + exprStr(x->getArg()) + ")");
+            else if (isa<NoThreadSafetyAnalysisAttr>(at)) a.push_back(std::string("no_thread_safety_analysis"));
+            else if (isa<ScopedLockableAttr>(at)) a.push_back(std::string("scoped_lockable"));
+            else if (isa<CapabilityAttr>(at)) a.push_back(std::string("capability"));
+            else if (isa<WarnUnusedResultAttr>(at)) a.push_back(std::string("nodiscard"));
         }
         return a;
     }
@@ -741,6 +762,15 @@ public:
         Enums.push_back(std::move(o));
     }
 
+    bool unwrapInt(const APValue& v, llvm::APSInt& out, int depth = 0)
+    {
+        if (v.isInt()) { out = v.getInt(); return true; }
+        if (depth > 3) return false;
+        if (v.isStruct() && v.getStructNumBases() == 0 && v.getStructNumFields() == 1) return unwrapInt(v.getStructField(0), out, depth + 1);
+        if (v.isStruct() && v.getStructNumBases() == 1 && v.getStructNumFields() == 0) return unwrapInt(v.getStructBase(0), out, depth + 1);
+        return false;
+    }
+
     void emitConst(const VarDecl* V)
     {
         if (V->isLocalVarDecl() || isa<ParmVarDecl>(V)) return;
@@ -748,14 +778,13 @@ public:
         if (V->isTemplated() || V->getType()->isDependentType()) return;
         QualType T = V->getType();
         if (!T.isConstQualified() && !V->isConstexpr()) return;
-        if (!T->isIntegralOrEnumerationType()) {
-            // std::chrono durations and similar wrappers: try to fold the initializer's single field
-            return;
-        }
+        if (!T->isIntegralOrEnumerationType() && !T->isRecordType()) return;
+        if (T->isRecordType() && !V->isConstexpr()) return;
         const Expr* init = V->getAnyInitializer();
-        if (!init || init->isValueDependent()) return;
+        if (!init || init->isValueDependent() || init->containsErrors()) return;
         if (const APValue* val = V->evaluateValue()) {
-            if (val->isInt()) Consts[qname(V)] = mkInt(val->getInt());
+            llvm::APSInt iv;
+            if (unwrapInt(*val, iv)) Consts[qname(V)] = mkInt(iv);
         }
     }
 };
